@@ -99,6 +99,15 @@ pub fn deep_cfg(w: usize) -> SpaceCfg {
     c
 }
 
+/// text that is an entity reference (declared in a DOCTYPE), next to ordinary text and CDATA
+pub fn entity_cfg(w: usize) -> SpaceCfg {
+    let mut c = SpaceCfg::plain(w);
+    c.kinds = vec![Kind::Ent, Kind::Text, Kind::CData];
+    c.anames = vec!["x".into()];
+    c.max_attrs = 1;
+    c
+}
+
 /// a history evaluated on the real code
 pub struct Eval {
     pub el: Element<String>,
